@@ -38,11 +38,13 @@ func (m *JCModel) Distance(seq1 []uint8, seq2 []uint8, weights []float64) (float
 	} else {
 		dist = -.75 * math.Log(b)
 	}
-	if dist > 0 {
-		return dist, nil
-	} else {
+	// Slightly negative distances (rounding) are set to 0.
+	// A distance that is not defined (NaN: saturation, no comparable
+	// site) is not a null distance: it is returned as is
+	if dist < 0 {
 		return 0, nil
 	}
+	return dist, nil
 }
 
 func (m *JCModel) InitModel(al align.Alignment, weights []float64, gamma bool, alpha float64) (err error) {
